@@ -240,4 +240,52 @@ def machine : Machine := { σ := St, name := "aqs", init := fun _ => some {}, st
 
 end C20S
 
-def main (args : List String) : IO UInt32 := runMachines [C20.machine, C20S.machine] args
+/- machine `aqr`: the reloadable scheduler (NewAgentScheduler … Reload). The model is the scheduler-level model;
+   a reload starts from its initial state: no torrents, a fresh empty queue, nothing in flight. Compared after every
+   operation: the ready list as a probe event reads it through Next (and puts it back), and the set of controls. -/
+namespace C20R
+open KrakenModel.SchedQueue
+
+def ntor : Nat := 2
+
+def stObs (m : KrakenModel.SchedQueue.State) : List String :=
+  ["q=" ++ listTok (m.q.ready.map C20S.hashTok),
+   "ctrl=" ++ listTok (((List.range ntor).filter fun h => (m.ctrl h).isSome).map C20S.hashTok)]
+
+def step (m : KrakenModel.SchedQueue.State) (kind : String) (args impl : List String) :
+    Option (KrakenModel.SchedQueue.State × StepOut) :=
+  if kind = "st" then
+    -- the C20 queue invariant on the implementation's own answer
+    let q := match kv? impl "q" with | some t => list? t | none => []
+    let ctrls := match kv? impl "ctrl" with | some t => list? t | none => []
+    let dup := q.filter fun h => q.count h > 1
+    let pf := (if dup.isEmpty then [] else [s!"side=impl key=queued-twice {dup.headD ""} was handed out more than once by Next with no Ready in between"]) ++
+      ((q.filter fun h => !ctrls.contains h).eraseDups.map fun h =>
+        s!"side=impl key=queued-after-removal {h} is in the announce queue but the scheduler holds no control for it")
+    some (m, { obs := stObs m, branch := "st", propfails := pf })
+  else if kind ≠ "op" then none else
+  match args with
+  | ["add", ht] => do
+    let h ← C20.hash? ht
+    let br := if (m.ctrl h).isSome then "add.join" else "add.new"
+    pure (KrakenModel.SchedQueue.step true m (.request h false), { obs := [], branch := br })
+  | ["tick"] =>
+    let m' := KrakenModel.SchedQueue.step true m (.announceTick [])
+    some (m', { obs := [], branch := if m'.q.ready.length < m.q.ready.length then "tick.announce" else "tick.none" })
+  | ["ares", ht] => do
+    let h ← C20.hash? ht
+    let r := if m.inflight h = 0 then "none" else "answered"
+    pure (KrakenModel.SchedQueue.step true m (.announceResult h),
+          { obs := [r], branch := if r = "none" then "ares.none" else if h ∈ m.q.pending then "ares.requeue" else "ares.noop" })
+  | ["rm", ht] => do
+    let h ← C20.hash? ht
+    pure (KrakenModel.SchedQueue.step true m (.remove h), { obs := impl.take 1, branch := if (m.ctrl h).isSome then "rm.held" else "rm.absent" })
+  | ["reload"] =>
+    let nonempty := !m.q.ready.isEmpty || !m.q.pending.isEmpty
+    some ({}, { obs := [if nonempty then "nonempty" else "empty"], branch := if nonempty then "reload-with-nonempty-queue" else "reload.empty" })
+  | _ => none
+
+def machine : Machine := { σ := KrakenModel.SchedQueue.State, name := "aqr", init := fun _ => some {}, step := step }
+end C20R
+
+def main (args : List String) : IO UInt32 := runMachines [C20.machine, C20S.machine, C20R.machine] args
